@@ -30,6 +30,7 @@ def check(m, run):
     ly4(m, run)
     al8(m, run)
     ho1(m, run)
+    ho2(m, run)
     from .c09 import tol_two_sided
     n = tol_two_sided(m, run, [m.func('helpers.find_multiplicity'), m.func('helpers.find_span_binsearch')])
     ra.ax1_helper_calls(m, run, [fi for fi in m.funcs.values() if fi.mod in ('helpers', 'knotvector')])
@@ -482,3 +483,45 @@ def ho1(m, run):
 def _skel(m, run):
     from .. import skel_drivers
     skel_drivers.c03(m, run)
+
+
+def ho2(m, run):
+    """single-function routines (A2.4 / A2.5): support test and degree-zero indicator are half-open: U[i] <= u < U[i+1]"""
+    for name in ('basis_function_one', 'basis_function_ders_one'):
+        fi = m.func('helpers.' + name)
+        ps = params_of(fi.node)
+        kv, knot = ps[1], ps[3]
+        ind = [c for c in walk_no_nested(fi.node) if isinstance(c, ast.Compare) and len(c.ops) == 2 and isinstance(c.comparators[0], ast.Name)
+               and c.comparators[0].id == knot]
+        ok = False
+        why = 'degree-zero indicator (chained comparison around the parameter) not found'
+        for c in ind:
+            l, r = c.left, c.comparators[1]
+            if isinstance(l, ast.Subscript) and isinstance(r, ast.Subscript) and norm(l.value) == kv and norm(r.value) == kv:
+                try:
+                    d = to_poly(r.slice) - to_poly(l.slice)
+                except NotPoly:
+                    continue
+                ok = isinstance(c.ops[0], ast.LtE) and isinstance(c.ops[1], ast.Lt) and d == Poly.const(1)
+                why = 'N_{i,0}(u) = 1 on the half-open span U[i] <= u < U[i+1]' if ok else \
+                    'degree-zero indicator is `%s`; spans are half-open [U[i], U[i+1]): with a closed right end a parameter on an interior knot switches on two neighbouring functions' % norm(c)
+        run.ob('HO2.half-open-support', fi.key + ' :: degree-zero indicator', ok, why, site(fi, ind[0] if ind else None))
+        # support test: u < U[span] or u >= U[span + p + 1] -> 0
+        sup = None
+        for n in walk_no_nested(fi.node):
+            if isinstance(n, ast.If) and isinstance(n.test, ast.BoolOp) and isinstance(n.test.op, ast.Or):
+                cs = [cmp_norm(v, knot, kv) for v in n.test.values]
+                if all(x is not None for x in cs) and len(cs) == 2:
+                    sup = (n, cs)
+        oks = False
+        if sup is not None:
+            (o1, i1), (o2, i2) = sup[1]
+            try:
+                span_ = Poly.atom(ps[2])
+                deg_ = Poly.atom(ps[0])
+                oks = o1 is ast.Lt and to_poly(i1) == span_ and o2 is ast.GtE and to_poly(i2) == span_ + deg_ + 1
+            except NotPoly:
+                oks = False
+        run.ob('HO2.half-open-support', fi.key + ' :: support test', oks,
+               'zero outside [U[i], U[i+p+1])' if oks else 'support test is not `u < U[i] or u >= U[i+p+1]`', site(fi, sup[0] if sup else None))
+    run.floor('HO2.half-open-support', 4, 'two routines x (indicator, support)')
